@@ -115,8 +115,26 @@ def gen_hands(run: Run, rng: random.Random, count: int, tid0: int, spec_kw: dict
 
 
 def signature(m: dict) -> str:
+    """a stable description of the failing situation (matched against known_findings.json)"""
     names = ','.join(m['names'])
+    if m.get('orphan'):
+        return 'orphan-pot'
+    if m['clause'] in ('rule', 'microrule', 'steprule', 'model-fault'):
+        return f"{m['clause']}:{names}"
     return f"{m['clause']}:{m['op']}:{names}"
+
+
+def mark_orphans(mismatches):
+    """A hand in which the model itself declares a pot without any eligible live player (fault OrphanPot) is in territory the
+    engine has no rule for: that disagreement and whatever follows it in the same hand carry the signature of the known
+    finding.  What PRECEDES it (the cause, if the situation was produced by a defect) does not."""
+    first = {}
+    for m in mismatches:
+        if 'OrphanPot' in m['names'] or ('fault' in m['names'] and 'OrphanPot' in m.get('info', '')):
+            first[m['tid']] = min(first.get(m['tid'], 10 ** 9), m['step'])
+    for m in mismatches:
+        if m['tid'] in first and m['step'] >= first[m['tid']]:
+            m['orphan'] = True
 
 
 def short_hand(rec, upto=None):
@@ -153,6 +171,7 @@ def validate(run: Run, recs, name: str, prop: str, jobs=16, timeout=3000, env=No
     run.evaluations += steps + probes
     by_tid = {r['tid']: r for r in recs}
     nviol = 0
+    mark_orphans(res['mismatches'])
     for m in res['mismatches']:
         rec = by_tid[m['tid']]
         what = f"hand {m['tid']} step {m['step']} clause {m['clause']} op {m['op']} names {m['names']} info {m['info'][:1200]}"
